@@ -276,12 +276,18 @@ def _run_raw(exe, lines, timeout):
     return rc, out, se.decode("latin-1", "replace")[-6000:]
 
 
+# a tree that is broken badly kills the driver on thousands of lines; each death costs a sanitizer report and a new
+# process.  After this many deaths in one chunk the rest of the chunk is not run (reported as such): the check
+# has long failed by then, and a seeded-change run ends in minutes instead of a quarter of an hour
+MAX_DEATHS_PER_CHUNK = 40
+
+
 def _run_chunk(exe, lines, timeout):
     outs = []
     errs = {}
     pos = 0
     guard = 0
-    while pos < len(lines) and guard < 400:
+    while pos < len(lines) and guard < MAX_DEATHS_PER_CHUNK:
         guard += 1
         chunk = lines[pos:]
         rc, out, err = _run_raw(exe, chunk, timeout)
